@@ -679,8 +679,9 @@ class Dosym(_Symlink):
 
     def run(self, args):
         target = args.target
+        image_path = pjoin(self.op.ED, target.lstrip(os.path.sep))
         if target.endswith(os.path.sep) or (
-            os.path.isdir(target) and not os.path.islink(target)
+            os.path.isdir(image_path) and not os.path.islink(image_path)
         ):
             # bug 379899
             raise IpcCommandError(f"missing filename target: {target!r}")
